@@ -381,7 +381,7 @@ func c07Property(t *rapid.T) {
 	t.Repeat(map[string]func(*rapid.T){
 		"traffic": func(t *rapid.T) {
 			if !s.r.V.IsLoggedOn() {
-				t.Skip("not logged on")
+				return // not logged on (a no-op step: rapid gives up when too many draws in a row are skipped)
 			}
 			if rapid.Bool().Draw(t, "inbound") {
 				s.peerLive(rapid.SampledFrom([]string{"D", "0", "1"}).Draw(t, "type"), false)
@@ -393,7 +393,7 @@ func c07Property(t *rapid.T) {
 		},
 		"peerLogout": func(t *rapid.T) {
 			if !s.r.V.IsLoggedOn() {
-				t.Skip("not logged on")
+				return // not logged on (a no-op step: rapid gives up when too many draws in a row are skipped)
 			}
 			_, f := s.p.Next("5", nil)
 			s.deliver(f, true)
@@ -404,20 +404,20 @@ func c07Property(t *rapid.T) {
 		},
 		"disconnect": func(t *rapid.T) {
 			if !s.r.V.IsConnected() {
-				t.Skip("not connected")
+				return // not connected (a no-op step: rapid gives up when too many draws in a row are skipped)
 			}
 			s.disconnect()
 			mon.feat["disconnect"] = true
 		},
 		"reconnect": func(t *rapid.T) {
 			if s.r.V.IsConnected() {
-				t.Skip("connected")
+				return // connected (a no-op step: rapid gives up when too many draws in a row are skipped)
 			}
 			logonCycle(t)
 		},
 		"sequenceReset": func(t *rapid.T) {
 			if s.r.V.StateName() != "inSession" {
-				t.Skip("not in the normal logged-on state")
+				return // not in the normal logged-on state (a no-op step: rapid gives up when too many draws in a row are skipped)
 			}
 			mon.seqReset(t, s)
 			if !s.r.V.IsConnected() {
@@ -430,7 +430,7 @@ func c07Property(t *rapid.T) {
 		},
 		"resetTime": func(t *rapid.T) {
 			if !o.resetSeqTime || !s.r.V.IsLoggedOn() {
-				t.Skip("no ResetSeqTime / not logged on")
+				return // no ResetSeqTime / not logged on (a no-op step: rapid gives up when too many draws in a row are skipped)
 			}
 			// two run-loop ticks: one before, one after the configured reset time
 			ctx := s.ctxFor("resetcheck", nil, false)
